@@ -282,7 +282,7 @@ func c09Judge(c *Ctx, r *c09ProcResult) string {
 	cs := r.cs
 	if cls == "crash" {
 		site := strings.TrimPrefix(sig, "C09/panic/")
-		if c09TheEnv != nil && c.Replay == "" {
+		if c09TheEnv != nil && c.Replay == "" && !c09Seen(c, sig) {
 			crashes := func(x *c09Case) bool {
 				c2, s2, _ := c09Classify(c09Exec(c, c09TheEnv, 2000000, x))
 				return c2 == "crash" && s2 == sig
@@ -328,6 +328,10 @@ func c09NoNUL(argsHex []string) []string {
 	}
 	return out
 }
+
+// c09Seen: has a violation with this signature already been reported in this run? (Report keeps
+// one finding per signature; shrinking a second witness would be wasted work.)
+func c09Seen(c *Ctx, sig string) bool { return c.Res.sigSeen["violation"+sig] }
 
 func c09FirstLine(s string) string {
 	if i := strings.IndexByte(s, '\n'); i >= 0 {
@@ -655,6 +659,10 @@ func c09Session(c *Ctx, dflt string, lines []string) {
 	}
 	if run.Panic != "" {
 		site := c09PanicSite(run.Panic)
+		if c09Seen(c, "C09/panic/"+site) {
+			c.Res.Hit("session/panic-again")
+			return // already reported (and shrunk) once in this run
+		}
 		lines = c09ShrinkList(lines, func(ls []string) bool {
 			r := c09PProf(p, []string{"-symbolize=none"}, append(append([]string{"o"}, ls...), "o"))
 			return r.Panic != "" && c09PanicSite(r.Panic) == site
@@ -1042,7 +1050,7 @@ func c09Web(c *Ctx, cs *c09Case) {
 
 func runC09(c *Ctx) {
 	c.Res.Rule = "correspondence (in-process, exported plug-in API): -tagfocus values vs model outcome class; interactive sessions with a scripted UI vs the model's per-line events, output file, active filters and final option values; candidate-binary counts of locateBinaries; command/option tables. " +
-		"Campaign (real pprof binary, one process per case; web handlers through the HTTPServer hook): valid profiles with odd strings/ids/addresses/line numbers/0-1-2-character build ids/labels/units and per-column value patterns (one column zero, all zero, only one column non-zero, cancelling +v/-v, MinInt64/MaxInt64, negative, ones) x option assignments; every fourth CLI/script case and every third web UI also gets -base/-diff_base profiles (same, same stacks with another value pattern, subset, other profile with the same types, reordered/renamed types, unrelated) and the boolean/choice/sample_index option grid (mean, normalize, relative_percentages, call_tree, drop_negative, noinlines, showcolumns, trim, granularity, sort, each sample type) x option assignments x interactive scripts (grammar + noise) x URL query strings; failing input = panic trace, recovered panic, hang, abnormal exit, or a session/server that stops answering. " +
+		"Campaign (real pprof binary, one process per case; web handlers through the HTTPServer hook): valid profiles with odd strings/ids/addresses/line numbers/0-1-2-character build ids/labels/units and per-column value patterns (one column zero, all zero, only one column non-zero, cancelling +v/-v, MinInt64/MaxInt64, negative, ones) x option assignments; every fourth CLI/script case and every third web UI also gets -base/-diff_base profiles (same, same stacks with another value pattern, subset, other profile with the same types, reordered/renamed types, unrelated) and the boolean/choice/sample_index option grid (mean, normalize, relative_percentages, call_tree, drop_negative, noinlines, showcolumns, trim, granularity, sort, each sample type) x option assignments x interactive scripts (grammar + noise + mutation operators over valid lines: case changes incl. unicode case variants of command/option names, digit abbreviations, separator noise, redirections and pipes with odd targets, prefixes/suffixes/concatenations of command names, mixed-case help) x URL query strings; failing input = panic trace, recovered panic, hang, abnormal exit, or a session/server that stops answering. " +
 		"Non-trivial: tagfilter values containing a digit; sessions with at least one assignment or report line; locate cases with a build id; CLI cases that got past flag parsing and profile loading; scripts whose session started; web requests answered 200/400."
 	e := c09Setup()
 	if f := flag.Lookup("replay"); c.Replay == "" || (f != nil && f.Value.String() != "") {
